@@ -1,3 +1,4 @@
+import MJ.Gen.Tables
 /-!
 # Model of `minijinja::loader::safe_join` and of Unix paths (C17)
 
@@ -32,8 +33,12 @@ def splitOn (sep : Char) : Str → List Str
 
 /-! ## `loader::safe_join` -/
 
-/-- `segment.starts_with('.') || segment.contains('\\')` -/
-def badSeg (s : Str) : Bool := s.head? == some '.' || s.contains '\\'
+/-- the rejection condition of the loop, built from the rules the table extractor reads off the
+    source (`MJ.Gen.c17Reject…`; today: `segment.starts_with('.') || segment.contains('\\')`) -/
+def badSeg (s : Str) : Bool :=
+  MJ.Gen.c17RejectPrefix.any (fun c => s.head? == some c) ||
+  MJ.Gen.c17RejectContains.any (fun c => s.contains c) ||
+  MJ.Gen.c17RejectEquals.any (fun t => t.toList == s)
 
 /-- `PathBuf::push(seg)` on Unix: an absolute `seg` replaces the path; otherwise a separator is
     inserted unless the path is empty or already ends in one. -/
@@ -48,7 +53,7 @@ def safeJoinLoop (rv : Str) : List Str → Option Str
   | s :: rest => if badSeg s then none else safeJoinLoop (push rv s) rest
 
 /-- `safe_join(base, template)` -/
-def safeJoin (base name : Str) : Option Str := safeJoinLoop base (splitOn '/' name)
+def safeJoin (base name : Str) : Option Str := safeJoinLoop base (splitOn MJ.Gen.c17SafeJoinSep name)
 
 /-! ## `Path::components()` on Unix -/
 
@@ -114,5 +119,87 @@ def joinTemplatePath (cb : Option (Str → Str → Str)) (name parent : Str) : S
   match cb with
   | some f => f name parent
   | none => name
+
+/-! ## `path_loader` as a function of (configured base, file system at load time) -/
+
+/-- what `fs::read_to_string(path)` can answer -/
+inductive ReadResult where
+  | content (s : Str)
+  | notFound
+  | failed
+  deriving DecidableEq, Repr
+
+/-- the file system as the process sees it at one moment: the answer of `fs::read_to_string` for
+    every path string (relative paths are resolved against the working directory of that moment,
+    so the working directory is part of the snapshot) -/
+abbrev Snapshot := Str → ReadResult
+
+/-- what the loader closure answers: `Ok(Some(source))`, `Ok(None)`, `Err(..)` -/
+inductive LoadResult where
+  | found (s : Str)
+  | missing
+  | unreadable
+  deriving DecidableEq, Repr
+
+/-- the closure `path_loader` returns; its only captured state is the base -/
+structure Loader where
+  base : Str
+  deriving DecidableEq, Repr
+
+/-- `path_loader(dir)` called while the file system is `fs0`: `dir.as_ref().to_path_buf()` —
+    nothing is looked up at construction, the configured spelling is kept verbatim -/
+def pathLoader (_fs0 : Snapshot) (dir : Str) : Loader := ⟨dir⟩
+
+/-- the paths one request hands to the file system -/
+def Loader.reads (l : Loader) (name : Str) : List Str :=
+  match safeJoin l.base name with
+  | none => []
+  | some p => [p]
+
+/-- one request against the file system of the moment: `NotFound` is "missing", any other error
+    is "unreadable" -/
+def Loader.load (l : Loader) (fs : Snapshot) (name : Str) : LoadResult :=
+  match safeJoin l.base name with
+  | none => .missing
+  | some p =>
+    match fs p with
+    | .content s => .found s
+    | .notFound => .missing
+    | .failed => .unreadable
+
+/-- an environment with a loader: templates that were loaded once are answered from the store,
+    which is keyed by the template NAME (not by the path) -/
+structure Env where
+  loader : Loader
+  cache : List (Str × Str)
+
+def lookup (name : Str) : List (Str × Str) → Option Str
+  | [] => none
+  | (n, s) :: r => if n = name then some s else lookup name r
+
+/-- `Environment::get_template(name)` on a loader-backed environment -/
+def Env.get (e : Env) (fs : Snapshot) (name : Str) : LoadResult × Env :=
+  match lookup name e.cache with
+  | some s => (.found s, e)
+  | none =>
+    match e.loader.load fs name with
+    | .found s => (.found s, { e with cache := (name, s) :: e.cache })
+    | r => (r, e)
+
+/-- a history: the file system changes arbitrarily between requests -/
+def Env.run (e : Env) : List (Snapshot × Str) → List (Str × LoadResult)
+  | [] => []
+  | (fs, name) :: rest => (name, (e.get fs name).1) :: Env.run (e.get fs name).2 rest
+
+/-- the environment after a history -/
+def Env.after (e : Env) : List (Snapshot × Str) → Env
+  | [] => e
+  | (fs, name) :: rest => Env.after (e.get fs name).2 rest
+
+/-- `Environment::clear_templates()`: the store is emptied, the loader stays -/
+def Env.clear (e : Env) : Env := { e with cache := [] }
+
+/-- `Environment::templates()`: what the store holds -/
+def Env.templates (e : Env) : List (Str × Str) := e.cache
 
 end MJ.Path
